@@ -546,6 +546,45 @@ func checkC15(c *Check) {
 	if P.Whole {
 		c15DependencyGetters(c, fns)
 	}
+	if c.ID == "C15" {
+		c15Locks(c)
+	}
+}
+
+// c15Locks: a check that returns with a mutex held leaves every later check blocked for ever — no verdict, no
+// error. The return rule of C16.R3 (lockset analysis: no return while a mutex is held without a deferred
+// unlock) is evaluated here and filed under C15.R6.
+func c15Locks(c *Check) {
+	c.Rule("C15.R6", "no check hangs on a lock left behind: no own function returns while holding a mutex it acquired unless the unlock is deferred (the lockset rule of C16.R3) — an error return inside a critical section would block every later check for ever.", 1)
+	tc := NewCheck("C16", c.Tier, c.VerifDir, c.P)
+	func() {
+		defer func() {
+			if r := recover(); r != nil {
+				c.Fail("C15.R6", "lockset-analysis", "-", fmt.Sprintf("the lockset analysis did not complete: %v", r))
+			}
+		}()
+		checkC16(tc)
+	}()
+	n := 0
+	for _, o := range tc.Obls {
+		if !strings.HasPrefix(o.Key, "C16.R3/") {
+			continue
+		}
+		if o.Status == "violated" && strings.Contains(o.Key, "return while holding") {
+			c.Fail("C15.R6", strings.TrimPrefix(o.Key, "C16.R3/"), o.Where, o.Why+": every later check that needs this lock blocks for ever")
+			n++
+		}
+		if strings.HasSuffix(o.Key, "/locked-regions") {
+			if o.Status == "violated" {
+				c.Fail("C15.R6", "locked-regions", o.Where, o.Why)
+			} else {
+				c.Pass("C15.R6", "locked-regions", o.Where, o.Why)
+			}
+		}
+	}
+	if n == 0 {
+		c.Pass("C15.R6", "no-return-holding-a-lock", "-", "no own function returns with a mutex held and no deferred unlock")
+	}
 }
 
 // c15DependencyGetters (thorough tier, whole-program SSA): every generated getter of a dependency
